@@ -29,6 +29,25 @@ pub fn c03_configs(tier: Tier) -> Vec<InCfg> {
                 alphabet.push(T::Sub(0));
             }
             let outcomes = if ver == Ver::V5 { vec![GateOutcome::Ok, GateOutcome::Err, GateOutcome::Nack(0x87)] } else { vec![GateOutcome::Ok, GateOutcome::Err] };
+            if !router {
+                // synchronous handlers: complete within the call (ready on first poll)
+                let mut sync_ep = ep.clone();
+                sync_ep.handler_auto = true;
+                v.push(InCfg {
+                    ep: sync_ep,
+                    connect_props: vec![],
+                    alphabet: alphabet.clone(),
+                    prologue: vec![],
+                    max_len: if tier == Tier::Quick { 3 } else { 4 },
+                    outcomes: vec![GateOutcome::Ok],
+                    poutcomes: vec![GateOutcome::Ok],
+                    cork: true,
+                    judge: J_C03,
+                    app_sends: vec![],
+                    skip_connect: false,
+                    known: vec![],
+                });
+            }
             v.push(InCfg {
                 ep,
                 connect_props: vec![],
